@@ -239,6 +239,12 @@ CHECKS = {
             "DESIGN.md 4 C15"),
 }
 
+C05_EXTRA = (" Binding B: every block of ~2 500 generated programs and of the repository's own ~760 test programs "
+             "(library code included) is wrapped in logging proxies after parsing; the unmodified NodeBlock.evaluate drives "
+             "them and Block_Trace.tla validates the ~75k events against the block life-cycle automaton (statements in order, "
+             "none after a failure, clause values tested in order up to the first equal one, exactly that handler, every finally "
+             "statement exactly once, proper nesting).")
+
 NOT_YET = "check not built yet in this round (planned, see DESIGN.md section 4)"
 
 
@@ -249,6 +255,10 @@ def main():
         if pid not in CHECKS:
             continue
         mods, tech, text, note, ref = CHECKS[pid]
+        if pid == "C05":
+            mods = mods + ["Block_Trace.tla"]
+            text = text + C05_EXTRA
+            tech = tech + "; TLC trace validation (Block_Trace) of block life-cycle events recorded from the real evaluator"
         checks.append({
             "property_id": pid,
             "quick_cmd": f"./check {pid} --tier quick",
